@@ -27,6 +27,14 @@ def load_pem_key(
         ssh_type: bytes | None = None,
         password: bytes | None = None) -> Any:
     key: Any
+    if raw[:1] == b"\x30":
+        # an ASN.1 SEQUENCE: DER, whatever its octets look like (a key may
+        # contain any octets, the words of a PEM armor among them)
+        try:
+            return _load_der_key(raw, password)
+        except ValueError:
+            pass
+
     if ssh_type and raw.startswith(ssh_type):
         key = load_ssh_public_key(raw, backend=default_backend())
 
@@ -46,11 +54,15 @@ def load_pem_key(
         return cert.public_key()
 
     else:
-        try:
-            key = load_der_private_key(raw, password=password, backend=default_backend())
-        except ValueError:
-            key = load_der_public_key(raw, backend=default_backend())
+        key = _load_der_key(raw, password)
     return key
+
+
+def _load_der_key(raw: bytes, password: bytes | None = None) -> Any:
+    try:
+        return load_der_private_key(raw, password=password, backend=default_backend())
+    except ValueError:
+        return load_der_public_key(raw, backend=default_backend())
 
 
 def dump_pem_key(
